@@ -258,10 +258,22 @@ def run_case_files(ctx, paths, timeout=900):
     Returns {path: (ok, output)}."""
     from concurrent.futures import ThreadPoolExecutor
 
+    def raise_stack():
+        # large list literals in case files overflow coqc's default stack (8 MB)
+        import resource
+        try:
+            resource.setrlimit(resource.RLIMIT_STACK, (resource.RLIM_INFINITY, resource.RLIM_INFINITY))
+        except Exception:
+            try:
+                soft, hard = resource.getrlimit(resource.RLIMIT_STACK)
+                resource.setrlimit(resource.RLIMIT_STACK, (hard, hard))
+            except Exception:
+                pass
+
     def one(p):
         r = subprocess.run(["timeout", str(timeout), "coqc", "-Q", COQ, "NSG",
                             "-w", "-notation-overridden,-ambiguous-paths,-deprecated-instance-without-locality,-deprecated-hint-rewrite-without-locality,-abstract-large-number",
-                            p], capture_output=True, text=True)
+                            p], capture_output=True, text=True, preexec_fn=raise_stack)
         return p, (r.returncode == 0, r.stdout + r.stderr)
 
     with ThreadPoolExecutor(max_workers=16) as ex:
